@@ -165,8 +165,21 @@ class Snap(object):
     def too_large(self):
         return dense_size(self.cores) > MAX_DENSE
 
+    def floor(self):
+        """scale such that 1e-9 * floor is well above the rounding noise of evaluating this train"""
+        return 1e-4 * core_scale(self.cores)
+
     def shape_sig(self):
         return shape_sig_cores(self.cores)
+
+
+def core_scale(cores):
+    """prod_i ||core_i||_F : upper bound of the norm of the represented tensor; rounding noise of any evaluation of
+    the train is proportional to it (a train may represent a numerically zero tensor with large cores)"""
+    p = 1.0
+    for c in cores:
+        p *= float(np.linalg.norm(np.asarray(c).reshape(-1)))
+    return p
 
 
 def shape_sig_cores(cores):
